@@ -163,3 +163,30 @@ Definition is_bind_ok (e : cobs * outcome) : bool :=
 Definition binds (log : list (cobs * outcome)) : nat := length (filter is_bind_ok log).
 Definition is_bind_elsewhere (e : cobs * outcome) : bool :=
   match e with (CBind false, _) => true | _ => false end.
+
+(** ** Hypotheses of the theorems (Prop level) *)
+
+(** the consumer as the binder finds it: an existing, unbound, Pending pod with a
+    request that has not Succeeded; no other pod shares its name *)
+Definition init_ok (st : store) : Prop :=
+  self_alive st = true /\ p_name (self st) = 0 /\ p_rsv (self st) = false /\ p_phase (self st) = PhPending
+  /\ p_node (self st) = 0 /\ Forall (fun p => p_name p <> 0) (others st)
+  /\ exists b, br st = Some b /\ b_phase b <> BSucceeded.
+
+(** the static oracles allow a fault-free attempt to succeed: the upstream
+    (volume / DRA) pre-bind succeeds; a shared-GPU pod carries the config-map
+    annotation and the request names a group *)
+Definition attemptable_sc (sc : scen) : Prop :=
+  sc_k8s_ok sc = true /\ (sc_fraction sc = true -> sc_cmann sc = true /\ sc_groups sc <> []).
+
+(** the consumer is the only non-reservation pod; reservation pods carry their conventional names *)
+Definition rsv_only (st : store) : Prop := Forall (fun p => p_rsv p = true) (others st).
+Definition names_ok (st : store) : Prop :=
+  Forall (fun p => forall g, p_name p = rsv_name g -> p_plain p = Some g) (others st).
+Definition SH (st : store) : Prop := rsv_only st /\ names_ok st.
+
+(** nothing but the request status and the PodBound condition differs *)
+Definition bc_frame (st st' : store) : Prop :=
+  with_cond (self st') None = with_cond (self st) None /\ self_alive st' = self_alive st
+  /\ others st' = others st /\ cm_cap st' = cm_cap st /\ cm_evar st' = cm_evar st
+  /\ node_ok st' = node_ok st.
